@@ -16,6 +16,19 @@ CHECKS = {
              "permutations of an Einsum are additionally required to agree. Finds mis-compilations of un-pinned combinations; "
              "never establishes absence.",
         design="4/C01"),
+    "C02": dict(
+        technique="property-based testing (Hypothesis): generated shape-partitioning stacks x loop orders x inputs, executed on a reference model; dense-evaluation oracle + metamorphic comparison with the unpartitioned compile",
+        text="Generated-input search over Einsums x uniform_shape/nway_shape stacks (1-3 levels, literal/symbolic, non-dividing and "
+             "oversized sizes) x loop orders over the levels (ordered and arbitrary) x inputs; the emitted program is executed on the "
+             "reference model and must equal dense evaluation and the unpartitioned compile, under the declared name/rank ids.",
+        design="4/C02"),
+    "C03": dict(
+        technique="property-based testing (Hypothesis): generated occupancy stacks / flatten tuples x leaders x loop orders x inputs, executed on a reference model; dense-evaluation oracle + unmapped-compile comparison; shipped accelerator specs as structured seeds",
+        text="Generated-input search over product Einsums x uniform_occupancy stacks (any leader holding the rank, 1-2 levels, optionally "
+             "beneath a shape split) x flatten() of 2-3 ranks (raw or bottom shape levels) x occupancy split of the flattened rank x "
+             "level-ordered loop orders x inputs, plus the shipped accelerator mappings with drawn sizes; executed on the reference model "
+             "and compared with dense evaluation and the unmapped compile.",
+        design="4/C03"),
 }
 
 NOT_APPLICABLE = {}
